@@ -84,6 +84,17 @@ var flattenStream = (&StreamSpec{
 				}
 			}
 		}
+		// known cause (finding D17): an operation without operationId whose derived key equals the explicit id of another
+		// operation: GatherOperations registers both under one name, one of them gets no candidate name (deterministically)
+		if idlessKeyEqualsID(get(c.In, "bundle", "root")) {
+			for i := range fs {
+				for _, cl := range []string{":inline-complex:", ":not-normal-form:"} {
+					if strings.Contains(fs[i].Signature, cl) {
+						fs[i].Signature = "flatten:idless-operation-key-equals-another-operation-id"
+					}
+				}
+			}
+		}
 		// known cause: a path item that has parameters but no operation gets no name for its inline schemas (finding D13)
 		for i := range fs {
 			if (strings.HasPrefix(fs[i].Signature, "flatten:inline-complex:") || strings.HasPrefix(fs[i].Signature, "flatten:not-normal-form:")) && onlyOperationlessPaths(c, out) {
@@ -179,6 +190,33 @@ func idlessKeyCollision(doc any) bool {
 				return true
 			}
 			seen[k] = true
+		}
+	}
+	return false
+}
+
+// idlessKeyEqualsID: the key GatherOperations derives for an operation without operationId is the explicit id of another one.
+func idlessKeyEqualsID(doc any) bool {
+	keys := map[string]bool{}
+	ids := map[string]bool{}
+	paths, _ := get(doc, "paths").(map[string]any)
+	for p, pi := range paths {
+		pm, _ := pi.(map[string]any)
+		for _, m := range allMethods {
+			op, ok := pm[m].(map[string]any)
+			if !ok {
+				continue
+			}
+			if id, _ := op["operationId"].(string); id != "" {
+				ids[id] = true
+			} else {
+				keys[swag.ToGoName(m+" "+p)] = true
+			}
+		}
+	}
+	for k := range keys {
+		if ids[k] {
+			return true
 		}
 	}
 	return false
